@@ -2195,9 +2195,14 @@ fn try_site(
   };
   let next = match analyse(&applied.sources, with_std) {
     Ok(n) => n,
-    Err(_) => {
-      // the front end crashed on the rewritten text: cannot be validated structurally
+    Err(why) => {
+      // the front end crashed on the rewritten text: cannot be validated structurally.  When it was the
+      // CHECKER that crashed (the text parsed), this is a verdict change of its own -- the original was
+      // accepted or rejected, the rewritten program is neither -- and is reported, not discarded silently
       *stats.discarded.entry("frontend-crash-after".into()).or_default() += 1;
+      if why.starts_with("check:") && stats.broke_syntax.len() < 5 {
+        stats.broke_syntax.push(json!({"kind": KINDS[kind], "site": desc, "before": a.texts, "after": applied.sources, "crash": why}));
+      }
       return None;
     }
   };
